@@ -102,7 +102,7 @@ def step (st : St) (j : Json) : St × List String :=
     | "resolve" =>
       let resps := ((jArr j "resps").map parseResp).toArray
       let srv : Nat → Req → Option Resp := fun hop _ => (resps[hop]?).join
-      let hist := (jStrs j "hist").map (fun v => v != "deactivated")
+      let hist := (jStrs j "hist").map (fun v => v != "deactivated" && v != "deactivated+")
       let orphanedLast := (jStrs j "hist").getLast? == some "orphaned"
       let node : Node := { didMethods := st.methods, localState := fun _ => if jBool j "fault" then .dbError else sqlState hist, keyDecodes := fun _ => jBool j "keyok",
                            nutsState := fun _ => nutsStateOf' hist orphanedLast }
